@@ -423,6 +423,18 @@ func (a *Analysis) CheckC02(rep *Report) {
 			rep.Ob("G4-computed-fields-verified-by-"+sub.id, "all-frames", true, "", "")
 		}
 	}
+	// G5: "discriminators selecting the pinned body type": which body or extension a discriminator value selects – on
+	// both sides, for every value, registered or not – is what C12 decides against the pinned tables
+	{
+		scratch := NewReport("C12", "other", "quick", 0)
+		a.CheckC12(scratch)
+		for _, v := range scratch.Violations {
+			rep.Ob("G5-discriminators-verified-by-C12", v.Key, false, v.Pos, "a discriminator does not select the pinned body type: "+v.Msg)
+		}
+		if len(scratch.Violations) == 0 {
+			rep.Ob("G5-discriminators-verified-by-C12", "all-tables", true, "", "")
+		}
+	}
 	rep.Floor("codec_types", len(a.U.Types), len(g.Types))
 	rep.Notes = append(rep.Notes, "PROTO_DSL names recorded when the table was frozen (informational only): "+fmt.Sprint(g.Schemas))
 }
@@ -1029,6 +1041,9 @@ func (a *Analysis) primitiveMirror() (problems []string, pos []string, n int) {
 					irregularAny = true
 				}
 				parts = append(parts, nameless(f))
+			}
+			if os.Getenv("FPDEBUG") == "prim" {
+				fmt.Fprintln(os.Stderr, "prim", FuncName(fn), "reader", isReader, strings.Join(parts, " · "))
 			}
 			if irregularAny {
 				continue // helpers that are not a rendering of their own (pad-only, prefix-only); judged where they are inlined
